@@ -857,6 +857,11 @@ def near_discontinuity(case):
     if exact:
         return False
     allp = pts_f + [min(fvals), max(fvals)]
+    if curve_z and any(abs(v - pnt) < 1e-9 * max(1.0, abs(pnt)) for v in fvals for pnt in pts_f):
+        # a cell AT a curve point whose position is not computed exactly (the model's root is a 20-digit rational): with coinciding ZScoreValues the curve
+        # jumps there, and the two sides may land on different sides of the jump - also when the cell is the field's minimum / maximum (found by the
+        # thorough tier, seed 1: [-1.5, -2^-36] with ZScoreValues [1, 1])
+        return True
     for v in fvals:
         for pnt in allp:
             if abs(v - pnt) < 1e-9 * max(1.0, abs(pnt)) and not (v == pnt and pnt in (min(fvals), max(fvals))):
